@@ -60,6 +60,34 @@ theorem step_inv (P : World → Prop) (s : Sid)
             | (apply hExec <;> assumption))
         | (apply hSess; apply hExec <;> assumption)
 
+/-- the same, where the statement cases may use that the statement is the head of `s`'s program -/
+theorem step_inv_head (P : World → Prop) (s : Sid) (w : World) (hw : P w)
+    (hSess : ∀ w f, P w → P (w.setSess s f))
+    (hCommit : ∀ w, P w → P (w.commitTx s))
+    (hRollback : ∀ w, P w → P (w.rollbackTx s))
+    (hFail : ∀ w, P w → P (w.failTx s))
+    (hExec : ∀ st k w' o, (w.sess s).prog = .stmt st k → exec w s st = .done w' o → P w')
+    (hExecF : ∀ st k w' e, (w.sess s).prog = .stmt st k → exec w s st = .failed w' e → P w') :
+    P (step w s) := by
+  unfold step stepR
+  simp only
+  split
+  · exact hw
+  · rename_i st k heq
+    cases st <;> simp only [advance] <;>
+      (try split) <;> (try split) <;> (try split) <;> (try dsimp only) <;>
+      first
+        | exact hw
+        | (apply hSess; first
+            | exact hw
+            | (apply hSess; exact hw)
+            | (apply hCommit; exact hw)
+            | (apply hRollback; exact hw)
+            | (apply hFail; exact hw)
+            | (apply hFail; exact hExecF _ _ _ _ heq (by assumption))
+            | exact hExec _ _ _ _ heq (by assumption))
+        | (apply hSess; exact hExec _ _ _ _ heq (by assumption))
+
 theorem firstSome_none {α β : Type} (f : α → Option β) :
     ∀ (l : List α), firstSome f l = none → ∀ a ∈ l, f a = none := by
   intro l
